@@ -17,6 +17,12 @@ left with `(my_tokens, cheats) = (0, 1)` — the state in which `do_force_return
 `childExit` (none taken) and `childExitEat` (one taken) are offered.
 
 `exit` is `do_force_return_tokens` with its two assertions; after it every step is disabled.
+
+`exitTop` is `do_force_return_tokens` of a process at the TOP of its redo tree under a foreign (make-style) jobserver:
+it did not create the jobserver but created the cheat pipe itself.  Same re-creation, release and assertions as `exit`;
+but where `exit` would leave with `(my_tokens, cheats) = (0, 0)` (and write an IOU that nobody above would read), the
+process reads one token back from the token pipe before leaving (`my_tokens := 1`) — make expects the token the
+process was started with to come back with it (/repo 4ec0872).  In every other state `exitTop` is `exit`.
 -/
 namespace RedoModel.TokLoop
 
@@ -36,6 +42,7 @@ inductive LEv
   | releaseMine    -- the lock-wait path gives the token up (`assert!(my_tokens >= 1)`)
   | waitAll        -- one poll of `wait_all`
   | exit           -- `do_force_return_tokens` (explicitly or from `Drop`)
+  | exitTop        -- `do_force_return_tokens` of a process at the top of its redo tree under a foreign jobserver
   deriving DecidableEq, Repr
 
 inductive Res
@@ -90,6 +97,12 @@ def lstepG (fixRead fixEat : Bool) (s : LS) (e : LEv) : Res :=
     if s1.cheats > s1.my then .panic                  -- `assert!(state.cheats <= state.my_tokens)`
     else if s1.cheats ≥ 2 then .panic                 -- `assert!(state.cheats == 0 || state.cheats == 1)`
     else .ok { s1 with exited := true }
+  | .exitTop =>
+    -- as `exit`; a process that would leave with no token and no cheat takes one token back from the pipe
+    let s1 := keepOne (createN s s.running)
+    if s1.cheats > s1.my then .panic
+    else if s1.cheats ≥ 2 then .panic
+    else .ok { (if s1.my = 0 ∧ s1.cheats = 0 then { s1 with my := 1 } else s1) with exited := true }
 
 /-- The step with the repaired child-exit branch. -/
 abbrev lstep (fixRead : Bool) (s : LS) (e : LEv) : Res := lstepG fixRead true s e
